@@ -83,6 +83,7 @@ def run(repo, rep, tier):
     _reserved_rule(repo, rep)
     _nametransform_rule(repo, rep)
     _scope_rule(repo, rep)
+    L.state_rule(repo, rep)
 
 
 def brackets(repo, rep):
